@@ -40,13 +40,13 @@ func Run(c *vrun.Ctx) error {
 	}
 	if !th {
 		lanes = [][]func() error{
-			{prog(progRun{name: "quick", runs: []string{"small3", "unitq", "skip3", "cond6", "data", "fad", "sigshape", "core2", "lock", "sigu", "sig2"}, workers: 4, timeout: tm})},
+			{prog(progRun{name: "quick", runs: []string{"small3", "unitq", "skip3", "cond6", "data", "fad", "sigshape", "undec", "core2", "lock", "sigu", "sig2"}, workers: 4, timeout: tm})},
 			{b.runSeq, sim("sim", "sim", 12, 32)},
 			{b.runPumps},
 		}
 	} else {
 		lanes = [][]func() error{
-			{prog(progRun{name: "thorough-a", runs: []string{"core3", "sig3", "lock", "sigu", "skip3", "data", "fad", "sigshape"}, workers: 3, timeout: tm})},
+			{prog(progRun{name: "thorough-a", runs: []string{"core3", "sig3", "lock", "sigu", "skip3", "data", "fad", "sigshape", "undec"}, workers: 3, timeout: tm})},
 			{prog(progRun{name: "thorough-b", runs: []string{"unit", "tiny4", "core2m", "cond6", "small3s"}, workers: 3, timeout: tm})},
 			{b.runSeq, b.runPumps, sim("sim", "sim", 600, 40)},
 			{sim("simcore", "simcore", 250, 40)},
